@@ -20,3 +20,131 @@ Proof.
   - specialize (IH n). lia.
   - specialize (IH (S n)). lia.
 Qed.
+
+(* ================= relationship uniqueness of the reference =================
+   Every match the Reference semantics returns for one MATCH clause (all its
+   comma-separated patterns together) uses pairwise distinct relationships of
+   the graph (positions in g_rels), exactly one per hop. *)
+Definition valid_use (g : graph) (u : nat * rkey) : Prop := nth_error (g_rels g) (fst u) = Some (snd u).
+Definition uses_ok (g : graph) (used : list (nat * rkey)) : Prop :=
+  NoDup (map fst used) /\ Forall (valid_use g) used.
+
+Lemma bind_node_snd g np id m m' : In m' (bind_node g np id m) -> snd m' = snd m.
+Proof.
+  unfold bind_node. destruct (node_has_labels g id (np_labels np)); [|intros []].
+  destruct (row_get (fst m) (np_var np)) as [v|].
+  - destruct v; try (intros []). destruct (id =? id0); [|intros []]. intros [<-|[]]. reflexivity.
+  - intros [<-|[]]. reflexivity.
+Qed.
+
+Lemma start_nodes_snd g np m m' : In m' (start_nodes g np m) -> snd m' = snd m.
+Proof.
+  unfold start_nodes. destruct (row_get (fst m) (np_var np)) as [v|].
+  - destruct v; try (intros []). apply bind_node_snd.
+  - intros H. apply in_flat_map in H. destruct H as (id & _ & H). eapply bind_node_snd. exact H.
+Qed.
+
+Lemma indexed_from_nth {A} (l : list A) k i (e : A) :
+  In (i, e) (indexed_from k l) -> (k <= i)%nat /\ nth_error l (i - k) = Some e.
+Proof.
+  revert k. induction l as [|x l IH]; intros k H; [destruct H|]. cbn [indexed_from] in H. destruct H as [H|H].
+  - inversion H; subst. split; [lia|]. replace (i - i)%nat with 0%nat by lia. reflexivity.
+  - destruct (IH (S k) H) as (Hle & Hn). split; [lia|].
+    replace (i - k)%nat with (S (i - S k)) by lia. exact Hn.
+Qed.
+
+Lemma existsb_fst_false (used : list (nat * rkey)) i :
+  existsb (fun u => Nat.eqb (fst u) i) used = false -> ~ In i (map fst used).
+Proof.
+  induction used as [|u used IH]; intros H Hin; [exact Hin|]. cbn [existsb] in H.
+  apply Bool.orb_false_iff in H. destruct H as (H1 & H2). destruct Hin as [Hin|Hin].
+  - rewrite Hin, PeanoNat.Nat.eqb_refl in H1. discriminate.
+  - exact (IH H2 Hin).
+Qed.
+
+Lemma hop_reference_step g from rp np m m' :
+  In m' (hop Reference g from rp np m) ->
+  exists i e, snd m' = (i, e) :: snd m /\ ~ In i (map fst (snd m)) /\ valid_use g (i, e).
+Proof.
+  unfold hop. destruct (node_of m from) as [n|]; [|intros []].
+  intros H. apply in_flat_map in H. destruct H as ((i, e) & Hie & H).
+  destruct (blocked Reference g (snd m) i e || negb (type_ok (rp_types rp) e)) eqn:Hb; [destruct H|].
+  apply Bool.orb_false_iff in Hb. destruct Hb as (Hb & _).
+  apply in_flat_map in H. destruct H as (d & _ & H). apply bind_node_snd in H. cbn [snd] in H.
+  exists i, e. split; [exact H|]. split.
+  - apply existsb_fst_false. exact Hb.
+  - unfold valid_use, indexed_rels in *. cbn [fst snd]. apply indexed_from_nth in Hie.
+    destruct Hie as (_ & Hn). replace (i - 0)%nat with i in Hn by lia. exact Hn.
+Qed.
+
+Lemma hop_reference_inv g from rp np m m' :
+  uses_ok g (snd m) -> In m' (hop Reference g from rp np m) ->
+  uses_ok g (snd m') /\ length (snd m') = S (length (snd m)).
+Proof.
+  intros (Hnd & Hv) H. destruct (hop_reference_step _ _ _ _ _ _ H) as (i & e & -> & Hni & Hval).
+  split; [|reflexivity]. split.
+  - cbn [map fst]. constructor; assumption.
+  - constructor; assumption.
+Qed.
+
+Lemma hops_reference_inv g hs : forall from ms m',
+  (forall m, In m ms -> exists n, uses_ok g (snd m) /\ length (snd m) = n) ->
+  In m' (hops Reference g from hs ms) ->
+  exists m, In m ms /\ uses_ok g (snd m') /\ length (snd m') = (length hs + length (snd m))%nat /\
+            (uses_ok g (snd m)).
+Proof.
+  induction hs as [|(rp, np) hs IH]; intros from ms m' Hall H.
+  - cbn [hops] in H. exists m'. destruct (Hall m' H) as (n & Hok & _).
+    split; [exact H|]. split; [exact Hok|]. split; [reflexivity | exact Hok].
+  - cbn [hops] in H.
+    assert (Hall' : forall m, In m (flat_map (hop Reference g from rp np) ms) -> exists n, uses_ok g (snd m) /\ length (snd m) = n).
+    { intros m Hm. apply in_flat_map in Hm. destruct Hm as (m0 & Hm0 & Hm). destruct (Hall m0 Hm0) as (n & Hok & _).
+      destruct (hop_reference_inv _ _ _ _ _ _ Hok Hm) as (Hok' & _). eexists. split; [exact Hok'|reflexivity]. }
+    destruct (IH (np_var np) _ m' Hall' H) as (m1 & Hm1 & Hok' & Hlen & _).
+    apply in_flat_map in Hm1. destruct Hm1 as (m0 & Hm0 & Hm1). destruct (Hall m0 Hm0) as (n & Hok0 & _).
+    destruct (hop_reference_inv _ _ _ _ _ _ Hok0 Hm1) as (_ & Hl1).
+    exists m0. split; [exact Hm0|]. split; [exact Hok'|]. split; [|exact Hok0].
+    rewrite Hlen, Hl1. cbn [length]. lia.
+Qed.
+
+Lemma match_pattern_reference_inv g p m m' :
+  uses_ok g (snd m) -> In m' (match_pattern Reference g p m) ->
+  uses_ok g (snd m') /\ length (snd m') = (length (p_hops p) + length (snd m))%nat.
+Proof.
+  intros Hok H. unfold match_pattern in H.
+  assert (Hall : forall m0, In m0 (start_nodes g (p_start p) m) -> exists n, uses_ok g (snd m0) /\ length (snd m0) = n).
+  { intros m0 Hm0. rewrite (start_nodes_snd _ _ _ _ Hm0). eexists. split; [exact Hok|reflexivity]. }
+  destruct (hops_reference_inv g (p_hops p) _ _ m' Hall H) as (m0 & Hm0 & Hok' & Hlen & _).
+  split; [exact Hok'|]. rewrite Hlen, (start_nodes_snd _ _ _ _ Hm0). reflexivity.
+Qed.
+
+Definition total_hops (ps : list pattern) : nat := fold_right (fun p n => (length (p_hops p) + n)%nat) 0%nat ps.
+
+Lemma total_hops_cons p ps : total_hops (p :: ps) = (length (p_hops p) + total_hops ps)%nat.
+Proof. reflexivity. Qed.
+
+Lemma fold_patterns_reference_inv g ps : forall ms k m',
+  (forall m, In m ms -> uses_ok g (snd m) /\ length (snd m) = k) ->
+  In m' (fold_left (fun ms p => flat_map (fun m => match_pattern Reference g p m) ms) ps ms) ->
+  uses_ok g (snd m') /\ length (snd m') = (total_hops ps + k)%nat.
+Proof.
+  induction ps as [|p ps IH]; intros ms k m' Hall H.
+  - cbn [fold_left] in H. destruct (Hall m' H) as (Hok & Hl). split; [exact Hok | exact Hl].
+  - cbn [fold_left] in H.
+    assert (Hall' : forall m, In m (flat_map (fun m0 => match_pattern Reference g p m0) ms) ->
+                              uses_ok g (snd m) /\ length (snd m) = (length (p_hops p) + k)%nat).
+    { intros m Hm. apply in_flat_map in Hm. destruct Hm as (m0 & Hm0 & Hm). destruct (Hall m0 Hm0) as (Hok0 & Hl0).
+      destruct (match_pattern_reference_inv _ _ _ _ Hok0 Hm) as (Hok' & Hl'). split; [exact Hok'|]. rewrite Hl', Hl0. reflexivity. }
+    destruct (IH _ _ m' Hall' H) as (Hok & Hl). split; [exact Hok|]. rewrite Hl, total_hops_cons. lia.
+Qed.
+
+Theorem reference_match_unique : forall g ps r m,
+  In m (match_pms Reference g ps r) ->
+  NoDup (map fst (snd m)) /\ Forall (valid_use g) (snd m) /\ length (snd m) = total_hops ps.
+Proof.
+  intros g ps r m H. unfold match_pms in H.
+  assert (Hall : forall m0 : pm, In m0 [(r, [])] -> uses_ok g (snd m0) /\ length (snd m0) = 0%nat).
+  { intros m0 [<-|[]]. split; [split; constructor | reflexivity]. }
+  destruct (fold_patterns_reference_inv g ps _ _ m Hall H) as ((Hnd & Hv) & Hl).
+  repeat split; [exact Hnd | exact Hv |]. rewrite Hl. lia.
+Qed.
